@@ -402,25 +402,9 @@ impl RootCase {
     /// steer around every known root defect that a generator can avoid (exclusion profile)
     pub fn tamed(mut self) -> RootCase {
         self.tame = true;
-        if self.version < V_MOP {
-            self.materials.clear(); // MOMT is declared with 40 bytes/material before MoP
-        }
-        if let Some(first) = self.groups.first().map(|g| g.name.clone()) {
-            let first = if first.is_empty() { "g".to_string() } else { first };
-            for g in &mut self.groups {
-                g.name = first.clone(); // MOGI name offsets are always written as 0
-            }
-        }
+        // MOMT size, MOGI name offsets, v17 skybox, header bounds and non-ASCII texture names were
+        // repaired in /repo: only the doodad-name finding is still steered around
         self.doodad_fixpoint = true;
-        if self.version < V_WOD {
-            self.skybox = None; // version 17 is parsed as Classic → skybox dropped
-        }
-        self.bounds = None;
-        for t in &mut self.textures {
-            if !t.is_ascii() {
-                *t = "t.blp".into();
-            }
-        }
         self
     }
 
